@@ -13,7 +13,7 @@ use std::collections::{BTreeMap, BTreeSet, VecDeque};
 
 pub const META: Meta = Meta {
     level: "model_checking",
-    rule: "configurations = topology (all connected graphs on 3 nodes; path/cycle/star/complete on 4) x publisher(s) of 1 or 2 messages (every node / ordered pair of nodes) x flood_publish on/off x {no application validation; validate_messages with scoring off; validate_messages with scoring on}; per configuration a deterministic set-up (connect, subscribe, exchange subscriptions and GRAFTs to quiescence, one heartbeat per node; every link must then be a mesh link) followed by every execution with <= bound deviations from the default schedule (default: deliver the globally oldest in-flight frame, then let applications report Accept for pending messages, publish the 2nd message when the 1st has settled, no heartbeat; deviation: deliver the head of another link first, report a verdict or publish earlier, run a heartbeat at some node). Non-trivial = executions with >= 1 deviation, distinct by (configuration, choice sequence).",
+    rule: "configurations = topology (all connected graphs on 3 nodes; path/cycle/star/complete on 4) x publisher(s) of 1 or 2 messages (every node / ordered pair of nodes) x flood_publish on/off x {no application validation; validate_messages with scoring off; validate_messages with scoring on}, plus (without validation) the topology's first edge turned into an explicit-peer link or a floodsub link; per configuration a deterministic set-up (connect, subscribe, exchange subscriptions and GRAFTs to quiescence, one heartbeat per node; every link must then be a mesh link) followed by every execution with <= bound deviations from the default schedule (default: deliver the globally oldest in-flight frame, then let applications report Accept for pending messages, publish the 2nd message when the 1st has settled, no heartbeat; deviation: deliver the head of another link first, report a verdict or publish earlier, run a heartbeat at some node). Non-trivial = executions with >= 1 deviation, distinct by (configuration, choice sequence).",
     explanation: "E1 stateless deviation-bounded DFS; every execution runs 3-4 real Behaviours with owned entropy. Oracle at quiescence: every subscribed node except the publisher emitted exactly one Event::Message per message, the publisher none; during the run no frame carrying message m is queued by node n towards a peer from which n has already received m (any of them, duplicates included, also when forwarding is deferred until the application's Accept), nor towards m's source.",
     assumptions: &["<= 4 nodes (not a dozen): larger networks are out of exhaustive reach and are not claimed", "per-link FIFO (streams), reordering only across links", "no topology or subscription change during the explored phase; virtual time does not advance (well within the duplicate-cache lifetime)", "messages are unsigned with author + random seqno (ValidationMode::Permissive)"],
 };
@@ -69,14 +69,22 @@ struct Net {
 }
 
 impl Net {
-    fn new(topo: &str, flood: bool, validate: bool, scoring: bool) -> Net {
+    /// `special` = kind of the topology's first edge: "explicit" (both ends list each other as
+    /// explicit/direct peers), "floodsub" (the link negotiated /floodsub/1.0.0: both ends see a
+    /// floodsub peer) or anything else for an ordinary gossipsub link
+    fn new(topo: &str, flood: bool, validate: bool, scoring: bool, special: &str) -> Net {
         let (n, es) = edges(topo);
+        let first = es[0];
         let mut nodes = Vec::new();
         for i in 0..n {
             let mut beh = gs::Behaviour::new(gs::MessageAuthenticity::Author(peer(i as u8)), make_config_v(4, flood, validate)).expect("behaviour");
             if scoring {
                 let (sp, st) = score_params();
                 beh.with_peer_score(sp, st).expect("score params");
+            }
+            if special == "explicit" && (i == first.0 || i == first.1) {
+                let other = if i == first.0 { first.1 } else { first.0 };
+                beh.add_explicit_peer(&peer(other as u8));
             }
             nodes.push(GsNode::new(beh));
         }
@@ -90,8 +98,9 @@ impl Net {
         }
         let mut net = Net { nodes, nbrs, links, seq: 0, source: BTreeMap::new(), received_from: BTreeMap::new(), delivered: BTreeMap::new(), frames_delivered: 0, violation: None, validate, pending: vec![VecDeque::new(); n] };
         for (a, b) in &es {
-            net.nodes[*a].connect(peer(*b as u8), true, Kind::G11);
-            net.nodes[*b].connect(peer(*a as u8), false, Kind::G11);
+            let kind = if special == "floodsub" && (*a, *b) == first { Kind::Flood } else { Kind::G11 };
+            net.nodes[*a].connect(peer(*b as u8), true, kind);
+            net.nodes[*b].connect(peer(*a as u8), false, kind);
         }
         for i in 0..n {
             net.nodes[i].beh.subscribe(&gs::IdentTopic::new(T)).expect("subscribe");
@@ -214,7 +223,9 @@ fn one(cfg: &Value) -> Result<(), String> {
     let pubs: Vec<usize> = cfg["pubs"].as_array().unwrap().iter().map(|v| v.as_u64().unwrap() as usize).collect();
     let validate = cfg["validate"].as_bool().unwrap_or(false);
     let scoring = cfg["scoring"].as_bool().unwrap_or(false);
-    let mut net = Net::new(topo, flood, validate, scoring);
+    let special = cfg["special"].as_str().unwrap_or("none");
+    let mut net = Net::new(topo, flood, validate, scoring, special);
+    let first_edge = edges(topo).1[0];
     let n = net.nodes.len();
     // precondition of the property ("delivered to every subscriber" is promised on a mesh that
     // spans the graph): after set-up every link is a mesh link in both directions
@@ -222,7 +233,13 @@ fn one(cfg: &Value) -> Result<(), String> {
         let mesh = net.nodes[a].mesh();
         let members = mesh.get(T).cloned().unwrap_or_default();
         for b in &net.nbrs[a] {
-            if !members.contains(&peer(*b as u8)) {
+            let is_special = special != "none" && ((a, *b) == first_edge || (*b, a) == first_edge);
+            if is_special {
+                // explicit and floodsub neighbours are served by flooding, never by the mesh
+                if members.contains(&peer(*b as u8)) {
+                    return Err(format!("SETUP: {special} neighbour {b} is in node {a}'s mesh ({topo})"));
+                }
+            } else if !members.contains(&peer(*b as u8)) {
                 return Err(format!("SETUP: after set-up node {b} is not in node {a}'s mesh ({topo})"));
             }
         }
@@ -337,6 +354,25 @@ fn configs(ctx: &Ctx) -> Vec<Value> {
     let three = ["3-path-0", "3-path-1", "3-path-2", "3-triangle"];
     let four = ["4-path", "4-cycle", "4-star", "4-complete"];
     // (application validates before forwarding, peer scoring active)
+    // the topology's first edge as an explicit-peer link / a floodsub link (no validation): the
+    // explicit or floodsub neighbour is then source, relay or sink depending on the publisher
+    for special in ["explicit", "floodsub"] {
+        let two = !ctx.quick();
+        for flood in [false, true] {
+            for (ts, n) in [(&three[..], 3usize), (&four[..], 4)] {
+                for t in ts {
+                    for a in 0..n {
+                        v.push(json!({"topo": t, "flood": flood, "pubs": [a], "validate": false, "scoring": false, "special": special}));
+                        if two {
+                            for b in 0..n {
+                                v.push(json!({"topo": t, "flood": flood, "pubs": [a, b], "validate": false, "scoring": false, "special": special}));
+                            }
+                        }
+                    }
+                }
+            }
+        }
+    }
     for (validate, scoring) in [(false, false), (true, false), (true, true)] {
         // quick: the validating modes with one publish only
         let two = !(ctx.quick() && validate);
